@@ -244,7 +244,9 @@ fn run_case(line: &str) -> String {
 
 fn main() {
     let args: Vec<String> = std::env::args().collect();
-    std::panic::set_hook(Box::new(|_| {}));
+    if std::env::var("FQH_SHOW_PANIC").is_err() {
+        std::panic::set_hook(Box::new(|_| {}));
+    }
     match args.get(1).map(|s| s.as_str()) {
         Some("run") => {
             let f = std::fs::File::open(&args[2]).expect("cases file");
